@@ -12,6 +12,7 @@ trap 'git -C /repo worktree remove --force "$WT" 2>/dev/null; rm -rf "$WT"' EXIT
 cd "$WT"
 demo=$(ls "$D"/demo_test.go "$D"/demo/main.go 2>/dev/null | head -1)
 place=$(grep -m1 -oE 'place in [A-Za-z0-9_/.-]+' "$demo" | awk '{print $3}' | sed 's#/$##')
+if grep -m1 -qE 'place in (the )?(worktree|repository|repo) root' "$demo"; then place="."; fi
 if [ -n "$place" ] && [ -d "$place" ]; then
   cp "$demo" "$place/zz_seed_demo_test.go"; pkg="./$place/"
   # only run the demonstration's own tests
@@ -32,5 +33,5 @@ if [ "$SUITE" = "--suite" ]; then
   res="$res suite-fails=[$fails]"
 fi
 echo "VERIFY $(basename $D): $res"
-[ $c = 0 ] && [ $p != 0 ] || { tail -5 /tmp/sv-clean.$$ /tmp/sv-patched.$$; }
+[ $c = 0 ] && [ $p != 0 ] || { tail -n 5 /tmp/sv-clean.$$ /tmp/sv-patched.$$; }
 rm -f /tmp/sv-clean.$$ /tmp/sv-patched.$$
